@@ -63,6 +63,8 @@ PAIR_RULES = {
     "wrongkind": "pattern:\n- call\n",
     # neither a listing nor an object file (-s: no instruction lines at all; -b: objdump refuses it)
     "notalisting": "pattern:\n- call\n",
+    # one finding of more than 150 instructions (a reported text of several thousand characters)
+    "long": "pattern:\n- push\n- $not:\n  - ret\n  times:\n    min: 0\n    max: 400\n- ret\n",
     "range": "config:\n  valid_addr_range:\n    min: '0x0'\n    max: '0x100'\npattern:\n- call:\n  - valid_addr\n",
 }
 MACROS = {"m1": "macros:\n- name: '@x'\n  pattern: push\n- name: '@y'\n  pattern: call\n",
@@ -98,6 +100,11 @@ def run(prop, tier):
     for k, t in (("dup", DUP_LISTING), ("range", RANGE_LISTING)):
         with open(inputs[k][0], "w") as f:
             f.write(t)
+    long_obj = objdump.assemble("\t.text\nf:\n\tpush %rbp\n" + "\tinc %eax\n\tmov %rsp,%rbp\n" * 80 + "\tret\n", "c20long")
+    long_text = os.path.join(d, "long.s")
+    with open(long_text, "w") as f:
+        f.write(objdump.objdump_text(long_obj))
+    inputs["long"] = (long_text, long_obj)
     inputs["wrongkind"] = (obj, text)
     junk = os.path.join(d, "notes.txt")
     with open(junk, "w") as f:
